@@ -10,6 +10,7 @@ import Mathlib.Tactic.Ring
 import PV.Model.JsonRep
 import PV.Proofs.C11Lemmas
 import PV.Proofs.C11bLemmas
+import PV.Proofs.C11cLemmas
 import PV.Proofs.RealScalar
 
 namespace PV
@@ -124,7 +125,7 @@ open PV.Tree
     placeholders) is the original dictionary: every structure is back at its place (an all-`Obs`
     list as the list it was), every other value and the order of the keys are untouched.  For every
     alphanumeric placeholder stem, every depth and every mixture of lists and dictionaries. -/
-theorem c11_dict_roundtrip (reps : String) (d nd : List (String × T)) (ol : List Slot)
+theorem c11_dict_roundtrip (reps : String) (d nd : List (String × Tree.T)) (ol : List Slot)
     (h : exportDict reps d = .ok (nd, ol)) (hne : ol ≠ []) : importDict reps ol nd = .ok d := by
   unfold exportDict at h
   split at h
@@ -144,7 +145,7 @@ theorem c11_dict_roundtrip (reps : String) (d nd : List (String × T)) (ol : Lis
 
 /-- a dictionary without any structure is exported, and the import of that export is refused
     ("No placeholder has been replaced"): never a silently different dictionary -/
-theorem c11_dict_without_structure (reps : String) (d nd : List (String × T))
+theorem c11_dict_without_structure (reps : String) (d nd : List (String × Tree.T))
     (h : exportDict reps d = .ok (nd, [])) : importDict reps [] nd = .error .noPlaceholder := by
   unfold exportDict at h
   split at h
@@ -157,8 +158,8 @@ theorem c11_dict_without_structure (reps : String) (d nd : List (String × T))
   simp [this]
 
 /-- a string value that looks like a placeholder makes the export raise (top level of the dictionary) -/
-theorem c11_dict_clash_rejected (reps : String) (d : List (String × T)) (k s : String)
-    (hk : (k, T.str s) ∈ d) (hs : isPlaceholder reps s = true) : ∃ e, exportDict reps d = .error e := by
+theorem c11_dict_clash_rejected (reps : String) (d : List (String × Tree.T)) (k s : String)
+    (hk : (k, Tree.T.str s) ∈ d) (hs : isPlaceholder reps s = true) : ∃ e, exportDict reps d = .error e := by
   unfold exportDict
   split
   · exact ⟨_, rfl⟩
@@ -196,5 +197,33 @@ example : exportDict "DICTOBS" [("a", .leaf .obs 0), ("b", .list [.leaf .obs 1, 
   decide
 
 end dictionaries
+
+
+/-! ### the numeric part of a document: `value`, `data`, `cdata`, `reweighted` of one `obsdata` entry -/
+
+section documents
+open PV.JsonDoc
+
+/-- **C11 (documents).**  For every structure the writer accepts - observables with the same chains and configuration
+    lists, the same covariance inputs and flag (`_assert_equal_properties`), each satisfying the invariant of C04,
+    with zero-mean fluctuations - reading the written document restores every observable exactly: central value,
+    chain names in their order, configuration lists in their representation (range / list), every fluctuation, every
+    replica mean, covariance inputs with their gradients, and the flag.  Any number of observables, ensembles,
+    replicas, configuration layouts and covariance inputs.  (`toDoc` / `fromDoc` are compared with the
+    implementation's writer and reader on every generated Obs / List / Array case.) -/
+theorem c11_doc_roundtrip (ol : List (Obs ℝ)) (H : Writable ol) : fromDoc (toDoc ol) ol.length = .ok ol :=
+  doc_roundtrip ol H
+
+/-- enumerating the chains ensemble by ensemble (`mc_names`, `e_content`), as the writer does, visits every chain
+    exactly once - whatever the names -/
+theorem c11_chains_enumerated (o : Obs ℝ) : (o.mcNames.flatMap o.eContent).Perm o.reps := chains_perm o
+
+/-- a configuration list in the normal form of C04 is what the constructor makes of its explicit list: the reader
+    restores `range` as `range` and irregular lists as lists -/
+theorem c11_idl_restored (i : Idl) (hs : Idl.strictInc i.toList = true)
+    (hform : (∀ s n st, i = Idl.range s n st → 0 < st ∧ 2 ≤ n) ∧ (∀ l, i = Idl.list l → equallySpaced l = false)) :
+    Idl.normalise (.list i.toList) = .ok i := normalise_toList_self i hs hform
+
+end documents
 
 end PV
